@@ -142,8 +142,10 @@ def _eligible(fn, is_method):
     if any(not (isinstance(d, ast.Name) and d.id == "staticmethod") for d in fn.decorator_list):
         return False
     a = fn.args
-    if a.vararg or a.kwarg or a.posonlyargs:
+    if a.kwarg or a.posonlyargs:
         return False
+    if a.vararg and any(isinstance(x, ast.Name) and x.id == a.vararg.arg and isinstance(x.ctx, ast.Store) for x in ast.walk(fn)):
+        return False        # *args is bound to the tuple of the extra positional arguments; it must not be rebound
     # a mutable default is ONE object shared by all calls: substituting the default expression at each call site would change that
     for d in list(a.defaults) + [x for x in a.kw_defaults if x is not None]:
         if not (isinstance(d, ast.Constant) or (isinstance(d, ast.UnaryOp) and isinstance(d.operand, ast.Constant)) or
@@ -234,10 +236,12 @@ def _bind(fn, call, is_method):
         bound = {}
     if any(isinstance(x, ast.Starred) for x in call.args) or any(k.arg is None for k in call.keywords):
         return None
-    if len(call.args) > len(pos):
+    if len(call.args) > len(pos) and not a.vararg:
         return None
     for p, v in zip(pos, call.args):
         bound[p] = v
+    if a.vararg:
+        bound[a.vararg.arg] = ast.Tuple(elts=list(call.args[len(pos):]), ctx=ast.Load())
     for k in call.keywords:
         if k.arg not in params or k.arg in bound:
             return None
